@@ -30,6 +30,57 @@ ASSUMPTIONS = [
 R_KM = 6378.1
 
 
+def regen():
+    """Props/C13.lean imports Props/C03.lean (dark-sky cut inside the estimator), which bridges Gen/Src/C03 and Gen/Src/C01:
+    everything the build of this property reads is regenerated from the working tree"""
+    import srctie
+    out = {}
+    for p in ("C13", "C03", "C01"):
+        out.update(srctie.regen(p))
+    return out
+
+
+def src_throw(ctx, geom, limb, nads, hm_c, vm_c, sb_c, L_c):
+    """The functions of RegionGeomToO as translated from the source (Gen/Src/C13.lean) at Float next to the real object,
+    instant by instant: __init__ (horizon angle), throw (nadir angle, both masks, emergence angle, path length) and the
+    two helpers get_beta_angle / get_path_length called directly on every nadir angle of the throw."""
+    import srctie
+    n = len(nads)
+    R, D, aH = np.float64(geom.earth_radius), np.float64(geom.core_alt), np.float64(geom.alphaHorizon)
+    alt = float(geom.config.detector.initial_position.altitude)
+    srctie.compare(ctx, "C13", "init", [np.array([alt])], [np.array([float(R)]), np.array([float(D)]), np.array([float(aH)])], rtol=1e-15)
+    if n == 0:
+        return
+    with np.errstate(all="ignore"):
+        alt_rad = np.asarray(geom.too_source.localcoords(geom.times).alt.rad, dtype=np.float64)   # what throw read from astropy
+        lim_c = float(np.min([np.radians(42), geom.get_beta_angle(geom.alphaHorizon - limb)]))
+        b_all = np.asarray(geom.get_beta_angle(nads), dtype=np.float64)
+        L_all = np.asarray(geom.get_path_length(b_all, nads), dtype=np.float64)
+    if not np.array_equal(0.5 * np.pi + alt_rad, nads):
+        ctx.count("src_throw_altitude_not_reproducible")   # astropy did not return the same altitudes twice: nothing to compare against
+        return
+    alt_deg, az_deg = np.asarray(geom.alt_deg, dtype=np.float64), np.asarray(geom.az_deg, dtype=np.float64)
+    zeros = np.zeros(n)
+    ins = [aH, D, R, np.float64(limb), zeros, alt_rad, alt_deg, az_deg]
+    idx_h = np.flatnonzero(hm_c)
+    idx_k = idx_h[vm_c]
+    sb_full = np.full(n, np.nan); sb_full[idx_h] = sb_c
+    vm_full = np.zeros(n, dtype=bool); vm_full[idx_h] = vm_c
+    L_full = np.full(n, np.nan); L_full[idx_k] = L_c
+    # arccos is ill-conditioned at grazing incidence (beta -> 0): |d beta| ~ 4e-16 (D/R) / sin(beta); L inherits it
+    with np.errstate(all="ignore"):
+        cb = 4e-16 * (D / R) / np.maximum(np.sin(np.nan_to_num(sb_full, nan=1.0)), 1e-12) + 1e-15
+        tol_L = 1e-12 * D + D * np.abs(np.tan(np.nan_to_num(sb_full))) * cb * 4
+        near_v = (np.abs(sb_full - lim_c) <= cb) | np.isnan(lim_c)
+    srctie.compare(ctx, "C13", "throw", ins, [nads, alt_deg, az_deg, hm_c, sb_full, vm_full, L_full],
+                   rtol=0.0, atol=[0.0, 0.0, 0.0, 0.0, cb, 0.0, tol_L], kinds=["α", "α", "α", "Bool", "α", "Bool", "α"],
+                   bool_margin=[None, None, None, None, None, near_v, None], where=[None, None, None, None, hm_c, hm_c, vm_full])
+    with np.errstate(all="ignore"):
+        cb_all = 4e-16 * (D / R) / np.maximum(np.sin(b_all), 1e-12) + 1e-15
+        srctie.compare(ctx, "C13", "getBetaAngle", [nads, D, R], [b_all], rtol=0.0, atol=[cb_all])
+        srctie.compare(ctx, "C13", "getPathLength", [b_all, nads, D], [L_all], rtol=1e-14)
+
+
 def relclose(a, b, rtol=1e-10, atol=0.0):
     a = float(a)
     b = float(b)
@@ -155,6 +206,8 @@ def check_throw(ctx, geom, cfg, n, stream, ci):
         lim_c = float(np.min([np.radians(42), geom.get_beta_angle(geom.alphaHorizon - limb)]))
     if not (relclose(m["aH"], geom.alphaHorizon, 1e-14) and relclose(m["lim"], lim_c, 1e-12)):
         ctx.disagree("C13.limits", dict(case, model=[m["aH"], m["lim"]], code=[float(geom.alphaHorizon), lim_c]))
+    if n <= 400:
+        src_throw(ctx, geom, limb, nads, hm_c, vm_c, sb_c, np.asarray(L_r, dtype=np.float64))
     # per-instant comparison on full-length arrays; margins from the model's values; exact ties are compared exactly
     # when both sides see the very same tie, other instants within 1e-9 of a mask boundary are skipped and counted
     def full(hm, vm, sb, Ls):
@@ -432,6 +485,11 @@ def part_dark(ctx, nss, RegionGeomToO):
                 "det": [cfg.detector.initial_position.latitude, cfg.detector.initial_position.longitude, cfg.detector.initial_position.altitude],
                 "sun_alt_cut": sc, "moon_alt_cut": mc, "moon_min_phase_angle_cut": pc}
         mm = model_dark(sc, mc, pc, sun, moon, phase)
+        # source tie: ToOEvent.sun_moon_cut as translated from the source (Gen/Src/C13.lean) on the same astropy angles: comparisons
+        # only, so the flags must be identical (exact ties included)
+        import srctie
+        if got.shape == (n,):
+            srctie.compare(ctx, "C13", "sunMoonCut", [np.float64(sc), np.float64(mc), np.float64(pc), sun, moon, phase], [got], kinds=["Bool"])
         ties = (sun == sc) | (moon == mc) | (phase == pc)
         near = ((np.abs(sun - sc) < 1e-9) | (np.abs(moon - mc) < 1e-9) | (np.abs(phase - pc) < 1e-9)) & ~ties
         ctx.count("dark_ties", int(ties.sum()))
